@@ -696,7 +696,14 @@ class Prop(Check):
     CASE_TIMEOUT = 90
     PROCS_QUICK = 3  # shared machine
     PROCS_THOROUGH = 3
-    RULE = ("trees of 1..7 grammar files in nested directories with random import graphs (chains, diamonds, cycles, "
+    RULE = ("file and directory names from a pool (stems ending in the characters of the extension, prefixes of each other, "
+            "the same stem in several directories, files named like directories; 30 % the letters m, b, c …), the main file "
+            "named in seven ways (absolute, relative to two working directories, ./ and ../ components, PathLike, "
+            "metamodel_from_str with file_name); 30 % of the cases are histories: 2..3 trees loaded one after the other in "
+            "one process from one directory (files edited in place: rules removed / added / moved, imports reordered / "
+            "removed / added, files removed; another tree at the same paths; the same tree again; another main file), "
+            "every load observed and judged on the files of its step; each tree: "
+            "trees of 1..7 grammar files in nested directories with random import graphs (chains, diamonds, cycles, "
             "self-imports, repeated imports), overlapping rule names, unqualified / qualified / link references (implicit "
             "and explicit match rule), abstract, single-reference and match rules, files that define rules named like the "
             "built-in rules (ID, INT, …) and refer to them, 1..5 model texts plus up to 10 probe texts (token of the "
@@ -707,7 +714,8 @@ class Prop(Check):
                 "namespace, attribute class and PEG-rule class of every reference (the match rule of a link included), "
                 "metamodel[name], opened files, duplicate class objects, fqn trees with the values of parsed texts; failed "
                 "loads: the file reported missing, and the name reported unresolvable must be one of the references of the "
-                "failing file that the model cannot resolve at that point; the files-only specification of the theorems "
+                "failing file that the model cannot resolve at that point; histories: Imp.loadHistory, one answer per load, each load "
+                "compared with the model of the files of its own step; the files-only specification of the theorems "
                 "(Lean docResolve per reference, docLoadable) against the oracle's doc_resolve and the outcome of the load; not "
                 "modelled: referenced languages (reference statement), duplicate rule names inside one file, user classes, "
                 "rule kinds (a match rule is a rule without references)")
